@@ -203,6 +203,7 @@ func checkC06(cc *CheckCtx, r *Report) {
 	} else {
 		skels = append(FamilyDyn(2, 2, cc.Seed, false), FamilyDyn(2, 1, cc.Seed+1, true)...)
 	}
+	skels = append(skels, FamilyDynOrder(false)...)
 	r.Bounds = append(r.Bounds, "dynamic-scope topologies: 1..2 (quick) / 1..3 (thorough) resources + root, each with $dynamicAnchor/$anchor/no anchor, all visiting orders, hops by $ref / allOf / $dynamicRef, final $dynamicRef in fragment, resource-relative and pointer form, embedded or loader-supplied; instance = one symbolic JSON value; two Validate calls on the same Resolved per path")
 	cc.RunValidateFamily(r, skels, VOptions{ValidatePaths: true})
 }
@@ -647,9 +648,9 @@ func init() {
 		ts := TmplSpec{Depth: 2, MaxLen: 2, MaxKeys: 2}
 		var skels []*Skeleton
 		for i, sk := range append(FamilySingle(ts), FamilyDraft7(ts, false)...) {
-			if cc.Thorough() || i%2 == 0 {
+			if (cc.Thorough() || i%2 == 0) && !strings.Contains(sk.Name, "/wide.") {
 				a := repProfile(cc.P, sk, "all")
-				if strings.Contains(sk.Name, "recursive") || strings.Contains(sk.Name, "unique") {
+				if strings.Contains(sk.Name, "recursive") || strings.Contains(sk.Name, "unique") || strings.Contains(sk.Name, "remote.") {
 					a.Tm.Depth = 1 // every representation dimension at once: keep the instance flat here
 				}
 				skels = append(skels, a)
